@@ -408,6 +408,11 @@ class IoWorld(World):
         return self._after(st)
 
     def _gen_query(self, r, s, q):
+        if r.random() < 0.5:
+            # a time stamp that stops before its seconds (a one-minute logger), parsed with whatever the
+            # process reads with at that moment: refused, or read as it can be -- never a change of the format
+            return {"op": "parse_short", "text": r.choice(["2020-06-30T23:59", "30/06/2020 23:59", "2020-06-30 23:59",
+                                                           "20200630235", "23:59 30-06-2020", "06/30/2020 23:5"])}
         return {"op": "query_refused", "track": self._gen_track(r, "ENU")}
 
     def _gen_clock(self, r, s, q):
@@ -604,6 +609,17 @@ class IoWorld(World):
         ObsTime.setPrintFormat(f)
         self.fmt_print = f
         self.observed(f)
+
+    def op_parse_short(self, st):
+        from tracklib.core.obs_time import ObsTime
+        self._begin(st)
+        _, exc = self.call(ObsTime.readTimestamp, st["text"])
+        if exc is not None and not isinstance(exc, Exception):
+            self.fail("C13", "csv.read.raised", "ObsTime.readTimestamp(%r) ended in %r" % (st["text"], exc))
+            return "raised"
+        self.probe("short_time_stamp_parsed" if exc is None else "short_time_stamp_refused")
+        self.observed(None if exc is None else type(exc).__name__)
+        return "rejected" if exc is not None else "ok"
 
     def op_query_refused(self, st):
         """Another part of the library that knows the time formats: Track.query with a condition on a field
